@@ -15,7 +15,7 @@ namespace BiotiteModel.C12
 def NoEdgeSpace (s : Str) : Prop :=
   (∀ c, s.head? = some c → isSpace c = false) ∧ (∀ c, s.getLast? = some c → isSpace c = false)
 /-- a header the file format can hold on one line, already normalised -/
-def HeaderOk (h : Str) : Prop := '\n' ∉ h ∧ NoEdgeSpace h
+def HeaderOk (h : Str) : Prop := (∀ c ∈ h, isLineBreak c = false) ∧ NoEdgeSpace h
 /-- sequence symbols: no whitespace, no '>' and no ';' (these start header / comment lines) -/
 def SeqOk (s : Str) : Prop := ∀ c ∈ s, isSpace c = false ∧ c ≠ '>' ∧ c ≠ ';'
 
@@ -117,11 +117,10 @@ theorem strip_of_noEdgeSpace (s : Str) (h : NoEdgeSpace s) : strip s = s := by
 
 theorem normHeader_of_ok (h : Str) (hh : HeaderOk h) : normHeader h = h := by
   unfold normHeader
-  have : h.filter (· ≠ '\n') = h := by
+  have : h.filter (fun c => !isLineBreak c) = h := by
     apply List.filter_eq_self.mpr
     intro a ha
-    have : a ≠ '\n' := fun e => hh.1 (e ▸ ha)
-    simpa using this
+    simp [hh.1 a ha]
   rw [this]
   exact strip_of_noEdgeSpace h hh.2
 
